@@ -4,22 +4,25 @@ From V Require Import Base.Util C18.Model C18.Spec C18.Corr C18.JsonProofs C18.P
 Local Open Scope N_scope.
 
 Check (C18_exit_zero_iff_no_diagnostic :
-  forall p,
-  crashed (run p) = false -> (exit_status (run p) = 0 <-> clean p = true)).
+  forall p, exit_status (run p) = 0 <-> clean p = true).
 Print Assumptions C18_exit_zero_iff_no_diagnostic.
+
+Check (C18_exit_status_cases :
+  forall p,
+  exit_status (run p) = 0 \/ exit_status (run p) = 1 \/ exit_status (run p) = 101).
+Print Assumptions C18_exit_status_cases.
+
+Check (C18_crash_exit_status :
+  forall p, crashed (run p) = true -> exit_status (run p) = 101).
+Print Assumptions C18_crash_exit_status.
 
 Check (C18_no_panic_guard :
   forall p, no_panic_b p = true -> crashed (run p) = false).
 Print Assumptions C18_no_panic_guard.
 
-Check (C18_exit_zero_iff_no_diagnostic_guarded :
-  forall p,
-  no_panic_b p = true -> (exit_status (run p) = 0 <-> clean p = true)).
-Print Assumptions C18_exit_zero_iff_no_diagnostic_guarded.
-
-Check (C18_panic_exits_zero_refuted :
-  exists p, exit_status (run p) = 0 /\ clean p = false /\ outcome_written (run p) <> []).
-Print Assumptions C18_panic_exits_zero_refuted.
+Check (C18_crash_witness :
+  exists p, crashed (run p) = true /\ exit_status (run p) = 101 /\ clean p = false /\ outcome_written (run p) <> []).
+Print Assumptions C18_crash_witness.
 
 Check (C18_exit_zero_iff_no_diagnostic_json :
   forall p code out err w,
@@ -112,30 +115,37 @@ Check (C18_rdjson_has_command_error :
 Print Assumptions C18_rdjson_has_command_error.
 
 Check (C18_message_for_line_located :
-  forall path src p err additional mi,
-  existsb (fun il => N.eqb (fst il) (p_line p))
-          (firstn 5 (skipn (N.to_nat (p_line p - 2)) (enumerate_from 0 (lines src)))) = true ->
-  min_indent (firstn 5 (skipn (N.to_nat (p_line p - 2)) (enumerate_from 0 (lines src)))) = Some mi ->
-  exists rest,
-    message_for_line path src p err additional
-    = (if additional then INDENT else []) ++ path ++ [58] ++ dec (p_line p + 1) ++ [58] ++ dec (p_col p + 1) ++ [10] ++ rest).
+  forall path src p err additional,
+  exists ind rest, (ind = [] \/ ind = INDENT)
+    /\ message_for_line path src p err additional = ind ++ location_line path p ++ rest).
 Print Assumptions C18_message_for_line_located.
 
-Check (C18_message_for_line_bare :
+Check (C18_message_for_line_no_line :
   forall path src p err additional,
-  N.of_nat (length (lines src)) <= p_line p -> message_for_line path src p err additional = err).
-Print Assumptions C18_message_for_line_bare.
+  N.of_nat (length (lines src)) <= p_line p ->
+  message_for_line path src p err additional = location_line path p ++ err).
+Print Assumptions C18_message_for_line_no_line.
 
-Check (C18_parse_error_at_end_of_input_not_located_refuted :
-  forall f, exists out err w,
-    run (eof_witness f) = Exit 1 out err w
-    /\ locations_of (s "/w/q.graphql") out = [] /\ locations_of (s "/w/q.graphql") err = []).
-Print Assumptions C18_parse_error_at_end_of_input_not_located_refuted.
+Check (C18_positioned_error_located :
+  forall files e p m,
+  print_positioned_error files e = Some m -> e_pos e = Some p -> p_builtin p = false ->
+  exists f rest, get_file files (p_file p) = Some f /\ m = location_line (f_path f) p ++ rest).
+Print Assumptions C18_positioned_error_located.
+
+Check (C18_parse_error_at_end_of_input_located :
+  forall f, exists texts,
+    run_texts (eof_witness f) = Some (1, texts)
+    /\ flat_map (locations_of (s "/w/q.graphql")) texts = [(2, 1)]).
+Print Assumptions C18_parse_error_at_end_of_input_located.
 
 Check (C18_generate_error_not_located_refuted :
-  forall f, exists out err w,
-    run (scalar_witness f) = Exit 1 out err w
-    /\ locations_of (s "/w/schema.graphql") out = [] /\ locations_of (s "/w/schema.graphql") err = []).
+  forall f, exists texts,
+    run_texts (scalar_witness f) = Some (1, texts)
+    /\ flat_map (locations_of (s "/w/schema.graphql")) texts = []
+    /\ match run (scalar_witness f) with
+       | Exit _ out _ _ => match f with Human => True | _ => exists t, parse_json out = Some t /\ (json_diags t = Some [] \/ rdjson_diags t = Some []) end
+       | Crash _ _ => False
+       end).
 Print Assumptions C18_generate_error_not_located_refuted.
 
 Check (C18_json_diagnostics_name_store_files :
